@@ -165,4 +165,113 @@ theorem lex_total (s : LState) (h : s.panicked = false) : (lex s).2.2.panicked =
       · simpa [commit] using h
       · simpa [commit] using h
 
+open Gojq.Generated.Lalr
+
+/-- the new `l.token` (if Lex assigns it) fits into `m` + the bytes the scan consumed -/
+def Scan.tokOk (m : Nat) (sc : Scan) : Prop := ∀ t, sc.token = some t → t.length ≤ m + sc.n
+
+theorem ite_tokOk {c : Prop} [Decidable c] {a b : Scan} {m : Nat} (ha : c → a.tokOk m) (hb : ¬c → b.tokOk m) :
+    (if c then a else b).tokOk m := by
+  split
+  · exact ha ‹_›
+  · exact hb ‹_›
+
+theorem scanStringTok_tokOk (b : Bool) (o : Option UInt8) (r : Bytes) :
+    (scanStringTok b o r).tokOk (if o.isSome then 1 else 0) := by
+  have h := scanString_bounds r 0 r.length (by omega)
+  simp only [scanStringTok]
+  cases hs : scanString r 0 <;> rw [hs] at h <;> simp only [StrScan.inBounds] at h <;> simp only [] <;>
+    (repeat' split) <;> intro t ht <;>
+    simp only [Option.some.injEq, reduceCtorEq] at ht <;> (try subst ht) <;>
+    (try simp [List.length_take]) <;> (try omega) <;> (try (exfalso; simp_all; done))
+
+theorem scanStringTok_ty (b : Bool) (o : Option UInt8) (r : Bytes) : 128 ≤ (scanStringTok b o r).ty := by
+  simp only [scanStringTok]
+  repeat' split
+  all_goals (dsimp only; decide)
+
+theorem scanTok_tokOk (b : Bool) (ch : UInt8) (r : Bytes) : (scanTok b ch r).tokOk 1 := by
+  have h5 : (scanStringTok b (some ch) r).tokOk 1 := by simpa using scanStringTok_tokOk b (some ch) r
+  simp only [scanTok]
+  repeat' (apply ite_tokOk <;> intro _)
+  all_goals first
+    | exact h5
+    | (intro t ht; simp only [Option.some.injEq, reduceCtorEq] at ht; done)
+    | (intro t ht; simp only [Option.some.injEq] at ht; subst ht
+       simp [List.length_take] <;> omega)
+
+
+/-- the recorded token fits before the recorded offset -/
+def TokInv (s : LState) : Prop := s.token.length ≤ s.offset
+
+/-- holds once `Lex` has run: a single-byte token type means at least one byte was consumed -/
+def Read (s : LState) : Prop := s.tokenType ≠ eof → s.tokenType < 128 → 1 ≤ s.offset
+
+theorem commit_tokInv (s : LState) (w m : Nat) (sc : Scan) (h : TokInv s) (hm : m ≤ w) (hsc : sc.tokOk m) :
+    TokInv (commit s w sc).2.2 := by
+  simp only [commit, TokInv] at *
+  cases ht : sc.token with
+  | none => simp; omega
+  | some t => have := hsc t ht; simp; omega
+
+theorem lex_tokInv (s : LState) (h : TokInv s) : TokInv (lex s).2.2 ∧ Read (lex s).2.2 := by
+  unfold lex
+  split
+  · exact ⟨commit_tokInv s 0 0 _ h (by omega) (by intro t ht; simp at ht; subst ht; simp), by simp [commit, Read]⟩
+  · split
+    · refine ⟨commit_tokInv s 0 0 _ h (by omega) (by simpa using scanStringTok_tokOk true none s.rest), ?_⟩
+      have := scanStringTok_ty true none s.rest
+      simp only [commit, Read]; intro _ h2; omega
+    · rename_i hne _
+      have hb := next_bounds s.rest (by intro h; simp [h] at hne)
+      split
+      · rename_i heq; rw [heq] at hb; (try exact hb.elim)
+      · exact ⟨commit_tokInv s _ 0 _ h (by omega) (by intro t ht; simp at ht; subst ht; simp), by simp [commit, Read]⟩
+      · rename_i ch w heq
+        rw [heq] at hb
+        simp only [Next.inBounds] at hb
+        refine ⟨commit_tokInv s w 1 _ h (by omega) (scanTok_tokOk _ _ _), ?_⟩
+        simp only [commit, Read]; intro _ _; omega
+
+theorem parseError_token_le (s : LState) (h : TokInv s) (hr : Read s) :
+    (parseError s).token.length ≤ (parseError s).offset := by
+  simp only [parseError]
+  split
+  · rename_i hc
+    simp only [Bool.and_eq_true, bne_iff_ne, ne_eq, decide_eq_true_eq] at hc
+    simpa using hr hc.1 hc.2
+  · exact h
+
+/-! white space before a token -/
+
+theorem white_ne_hash {w : UInt8} (h : isWhite w = true) : (w == 35) = false := by
+  simp only [isWhite, Bool.or_eq_true, beq_iff_eq] at h
+  rcases h with ((h | h) | h) | h <;> subst h <;> decide
+
+theorem next_white (g : Bytes) (c : UInt8) (X : Bytes) (n : Nat) (hg : ∀ w ∈ g, isWhite w = true)
+    (hc : isWhite c = false) (hh : (c == 35) = false) :
+    nextAux .normal (g ++ c :: X) n = .char c (n + g.length + 1) := by
+  induction g generalizing n with
+  | nil => simp [nextAux, hc, hh]
+  | cons w g ih =>
+    have hw := hg w (by simp)
+    have := ih (n + 1) (fun w' hw' => hg w' (by simp [hw']))
+    simp [nextAux, hw, white_ne_hash hw]
+    rw [this]; simp only [Next.char.injEq, true_and]; omega
+
+theorem next_white_end (g : Bytes) (n : Nat) (hg : ∀ w ∈ g, isWhite w = true) (hne : g ≠ []) :
+    nextAux .normal g n = .eof (n + g.length) := by
+  induction g generalizing n with
+  | nil => exact absurd rfl hne
+  | cons w g ih =>
+    have hw := hg w (by simp)
+    cases g with
+    | nil => simp [nextAux, hw, white_ne_hash hw]
+    | cons w2 g2 =>
+      have := ih (n + 1) (fun w' hw' => hg w' (by simp [hw'])) (by simp)
+      rw [nextAux]
+      simp only [beq_self_eq_true, if_true, white_ne_hash hw, Bool.false_eq_true, if_false, hw, Bool.not_true,
+        List.isEmpty_cons]
+      rw [this]; simp only [List.length_cons, Next.eof.injEq]; omega
+
 end Gojq.Lexer
